@@ -101,6 +101,11 @@ func runC16Hostile(c *Ctx) {
 			}
 		}})
 		var fg, bg int64
+		// the welcome's handler dispatches CONNECTED: that event is owed for every 001 line, also for one whose
+		// built-in handler panics on it
+		var n001, nConnected int64
+		s.Conn.HandleFunc("001", func(_ *client.Conn, l *client.Line) { atomic.AddInt64(&n001, 1) })
+		s.Conn.HandleFunc(client.CONNECTED, func(_ *client.Conn, l *client.Line) { atomic.AddInt64(&nConnected, 1) })
 		s.Conn.HandleFunc("EVT", func(_ *client.Conn, l *client.Line) { atomic.AddInt64(&fg, 1) })
 		s.Conn.HandleBG("EVT", client.HandlerFunc(func(_ *client.Conn, l *client.Line) { atomic.AddInt64(&bg, 1) }))
 		// user handlers that query the client the way applications do, on the verbs the probes use
@@ -165,6 +170,10 @@ func runC16Hostile(c *Ctx) {
 					}
 					ok = false
 					break
+				}
+				if a, b := atomic.LoadInt64(&n001), atomic.LoadInt64(&nConnected); a != b {
+					c.R.Violate(rig.Violation{Sig: "c16|connected-lost-after-builtin-panic", Detail: fmt.Sprintf("%d welcome (001) lines were dispatched, CONNECTED was delivered %d times (%d built-in panics so far, last for %q, tracking=%v)", a, b, np, lastP, tracking), Case: Case("hostile", idx)})
+					ok = false
 				}
 				if f := atomic.LoadInt64(&fg); f != sent {
 					c.R.Violate(rig.Violation{Sig: "c16|events-lost-around-builtin-panic", Detail: fmt.Sprintf("%d events sent, the foreground handler ran %d times (%d built-in panics so far, tracking=%v)", sent, f, np, tracking), Case: Case("hostile", idx)})
@@ -423,6 +432,13 @@ func runC16(c *Ctx) {
 				<-release
 			}))
 		}
+		if nParked > 0 {
+			// one more that parks on a verb nobody handles in the foreground
+			s.Conn.HandleBG("BGONLY", client.HandlerFunc(func(_ *client.Conn, l *client.Line) {
+				atomic.AddInt64(&parkedStarted, 1)
+				<-release
+			}))
+		}
 		mc, err := s.Connect()
 		if lateRecover {
 			// (REGISTER has been dispatched by now: the function in force is the one found at each panic, not at the first event)
@@ -577,6 +593,9 @@ func runC16(c *Ctx) {
 				builtinThrown++
 				thrown["builtin"]++
 				has = false // the user victims ignore plan entries of kind "builtin"
+			}
+			if nParked > 0 && n%37 == 5 {
+				mc.SendLine(fmt.Sprintf(":srv BGONLY %d", n))
 			}
 			mc.SendLine(fmt.Sprintf(":srv EVT %d", n))
 			sentEvents++
